@@ -2,4 +2,6 @@
 let table : (string * (BinNums.coq_N list -> BinNums.coq_N list)) list = [
   ("alloc", AllocCorr.check_alloc);
   ("alloc_mon", AllocCorr.mon_alloc);
+  ("framing", FramingCorr.check_framing);
+  ("framing_mon", FramingCorr.mon_framing);
 ]
